@@ -681,3 +681,76 @@ def u_scatter(ctx, size, role):
         ctx.check(f"{name}/post:reader_keeps_its_own_part", res == ("PART", "CHUNK", 0, size))
     else:
         ctx.check(f"{name}/post:receives_its_part_from_the_reader", log == [("recv", 0, 2)] and res == ("PART", "mine"))
+
+
+# ---------------------------------------------------------------------------------------------------------
+# structural obligation over the whole package: no world collective is rank dependent
+# ---------------------------------------------------------------------------------------------------------
+
+WORLD_COLLECTIVES = {"bcast", "Bcast", "Barrier", "gather", "Split", "bcast_instance", "bcast_array", "iter_unordered", "ranks_on_same_node",
+                     "world_to_comm_rank", "get_bcast_method"}
+RANK_TESTS = {"on_root", "on_worker", "Get_rank"}
+
+
+def _calls(nodes):
+    import ast as _ast
+    out = []
+    for n in nodes:
+        for x in _ast.walk(n):
+            if isinstance(x, _ast.Call):
+                f = x.func
+                name = f.attr if isinstance(f, _ast.Attribute) else getattr(f, "id", None)
+                if name in WORLD_COLLECTIVES:
+                    # collectives on a sub-communicator (a local variable / parameter other than parallel.COMM) are a matter of the ranks in it
+                    if isinstance(f, _ast.Attribute) and isinstance(f.value, _ast.Name) and f.value.id not in ("parallel", "COMM") and name in ("Barrier", "bcast", "Bcast", "gather", "Split"):
+                        continue
+                    out.append(name)
+    return out
+
+
+def _rank_dependent(test):
+    import ast as _ast
+    for x in _ast.walk(test):
+        if isinstance(x, _ast.Call):
+            f = x.func
+            name = f.attr if isinstance(f, _ast.Attribute) else getattr(f, "id", None)
+            if name in RANK_TESTS:
+                return True
+    return False
+
+
+@unit(P, "collectives.not_rank_dependent", kind="structural")
+def u_collectives(ctx):
+    """generated from the current source of every module: in a branch whose condition depends on the rank (on_root(), on_worker(),
+    Get_rank()) the two sides issue the same world collectives (normally none), and no rank-dependent branch leaves the function
+    (return / raise / break / continue) while world collectives still follow - otherwise some ranks wait in a collective the others
+    never enter.  Functions whose rank-dependent branches are proved separately against the peer models are listed as exempt."""
+    import ast as _ast
+    import os
+    ctx.canary()
+    root = os.path.join(shadow.repo_root(), "src", "yaw")
+    exempt = {"_mpi_iter_unordered", "scatter_data_chunk", "write_patches", "get_comm", "ranks_on_same_node", "world_to_comm_rank", "bcast_array", "bcast_instance"}
+    checked = 0
+    for dirpath, _, files in os.walk(root):
+        for fn in sorted(files):
+            if not fn.endswith(".py"):
+                continue
+            path = os.path.join(dirpath, fn)
+            rel = os.path.relpath(path, root)
+            tree = _ast.parse(open(path, encoding="utf-8").read())
+            for func in [n for n in _ast.walk(tree) if isinstance(n, (_ast.FunctionDef, _ast.AsyncFunctionDef))]:
+                if func.name in exempt:
+                    continue
+                all_calls = _calls(func.body)
+                for node in _ast.walk(func):
+                    if isinstance(node, _ast.If) and _rank_dependent(node.test):
+                        checked += 1
+                        a, b = _calls(node.body), _calls(node.orelse)
+                        ctx.check(f"C06/collectives/{rel}:{func.name}:{node.lineno}/same_collectives_on_both_sides", a == b,
+                                  detail=f"if-branch {a} else-branch {b}")
+                        leaves = [type(x).__name__ for blk in (node.body, node.orelse) for s in blk for x in _ast.walk(s)
+                                  if isinstance(x, (_ast.Return, _ast.Raise, _ast.Break, _ast.Continue))]
+                        later = [c for c in _calls([s for s in _ast.walk(func) if isinstance(s, _ast.stmt) and getattr(s, "lineno", 0) > node.end_lineno]) ]
+                        ctx.check(f"C06/collectives/{rel}:{func.name}:{node.lineno}/no_exit_from_a_rank_dependent_branch_before_later_collectives",
+                                  not (leaves and later), detail=f"{leaves} while {later} follow")
+    ctx.check("C06/collectives/rank_dependent_branches_checked", checked >= 30)
